@@ -98,11 +98,17 @@ func (in *Interp) jsonRender(n *JNode) ([]*sym.Term, bool) {
 			}
 			return lit(strconv.FormatUint(n.Val.Val, 10)), true
 		}
+		if in.renderInts {
+			return in.strBytes(in.decimalOf(n.Val, n.Signed)), true
+		}
 		return nil, false
 	case JString:
 		if n.Flavor == flPlain && n.S.IsConc() {
 			b, _ := json.Marshal(n.S.S)
 			return lit(string(b)), true
+		}
+		if n.Flavor == flPlain && n.S.Opq == nil && in.renderJSON {
+			return in.jsonRenderString(n.S), true
 		}
 		return nil, false
 	case JArray:
@@ -514,65 +520,319 @@ func (in *Interp) jsonOfBytes(s Slice) *JNode {
 	return in.parseSymbolicJSON(bs)
 }
 
-// parseSymbolicJSON handles the one shape the library builds from symbolic bytes itself:
-// a string literal `"` + bytes + `"` (filter labels). The JSON string grammar is followed
-// byte by byte; each symbolic byte is classified by a decision.
-func (in *Interp) parseSymbolicJSON(bs []*sym.Term) *JNode {
+// jsonRenderString renders a string leaf with symbolic (ASCII) content exactly as
+// encoding/json does, deciding the escape class of every byte.
+func (in *Interp) jsonRenderString(s Str) []*sym.Term {
 	c := in.Ctx
-	in.noteModel("JSON string-literal scanner over symbolic bytes (filter label)")
-	n := len(bs)
-	if n < 2 || !bs[0].IsConst() || bs[0].Val != '"' {
-		in.unsupported("json.Unmarshal of symbolic bytes that are not a string literal")
+	in.noteModel("JSON string encoding of symbolic bytes (escape classes decided per byte, ASCII)")
+	lit := func(x string) []*sym.Term {
+		out := make([]*sym.Term, len(x))
+		for i := range out {
+			out[i] = c.BV(8, uint64(x[i]))
+		}
+		return out
 	}
-	var out []*sym.Term
-	i := 1
-	for i < n {
-		b := bs[i]
-		isQuote := c.Eq(b, c.BV(8, '"'))
-		if in.Path.Branch(isQuote) {
-			if i == n-1 {
-				return &JNode{Kind: JString, S: in.mkStr(out)}
+	out := lit("\"")
+	for i := 0; i < s.Len(); i++ {
+		b := in.strAt(s, i)
+		done := false
+		for _, e := range []struct {
+			ch  byte
+			enc string
+		}{{'"', "\\\""}, {'\\', "\\\\"}, {'\b', "\\b"}, {'\f', "\\f"}, {'\n', "\\n"}, {'\r', "\\r"}, {'\t', "\\t"},
+			{'<', "\\u003c"}, {'>', "\\u003e"}, {'&', "\\u0026"}} {
+			if in.Path.Branch(c.Eq(b, c.BV(8, uint64(e.ch)))) {
+				out = append(out, lit(e.enc)...)
+				done = true
+				break
 			}
-			return &JNode{Kind: JInvalid} // trailing data after the closing quote
+		}
+		if done {
+			continue
 		}
 		if in.Path.Branch(c.Cmp(sym.OpUlt, b, c.BV(8, 0x20))) {
-			return &JNode{Kind: JInvalid} // control character
+			out = append(out, lit("\\u00")...)
+			hex := func(n *sym.Term) *sym.Term {
+				return c.Ite(c.Cmp(sym.OpUlt, n, c.BV(8, 10)), c.Bin(sym.OpAdd, n, c.BV(8, '0')), c.Bin(sym.OpAdd, n, c.BV(8, 'a'-10)))
+			}
+			out = append(out, hex(c.Bin(sym.OpLShr, b, c.BV(8, 4))), hex(c.Bin(sym.OpBAnd, b, c.BV(8, 15))))
+			continue
+		}
+		if in.Path.Branch(c.Cmp(sym.OpUle, c.BV(8, 0x80), b)) {
+			in.unsupported("non-ASCII byte in a JSON string (outside the stated bound)")
+		}
+		out = append(out, b)
+	}
+	return append(out, lit("\"")...)
+}
+
+// parseSymbolicJSON parses JSON text given as bytes of which some are symbolic (recursive
+// descent following the JSON grammar; every symbolic byte is classified by decisions).
+func (in *Interp) parseSymbolicJSON(bs []*sym.Term) *JNode {
+	in.noteModel("JSON scanner over partly symbolic bytes")
+	p := &symJSONParser{in: in, bs: bs}
+	p.ws()
+	n := p.value(0)
+	if n == nil {
+		return &JNode{Kind: JInvalid}
+	}
+	p.ws()
+	if p.i != len(bs) {
+		return &JNode{Kind: JInvalid}
+	}
+	return n
+}
+
+type symJSONParser struct {
+	in *Interp
+	bs []*sym.Term
+	i  int
+}
+
+func (p *symJSONParser) is(ch byte) bool {
+	if p.i >= len(p.bs) {
+		return false
+	}
+	return p.in.Path.Branch(p.in.Ctx.Eq(p.bs[p.i], p.in.Ctx.BV(8, uint64(ch))))
+}
+
+func (p *symJSONParser) ws() {
+	for p.i < len(p.bs) && (p.is(' ') || p.is('\n') || p.is('\t') || p.is('\r')) {
+		p.i++
+	}
+}
+
+func (p *symJSONParser) word(w string) bool {
+	for k := 0; k < len(w); k++ {
+		if !p.is(w[k]) {
+			return false
+		}
+		p.i++
+	}
+	return true
+}
+
+func (p *symJSONParser) isDigit() bool {
+	if p.i >= len(p.bs) {
+		return false
+	}
+	c := p.in.Ctx
+	b := p.bs[p.i]
+	return p.in.Path.Branch(c.And(c.Cmp(sym.OpUle, c.BV(8, '0'), b), c.Cmp(sym.OpUle, b, c.BV(8, '9'))))
+}
+
+func (p *symJSONParser) value(depth int) *JNode {
+	in := p.in
+	c := in.Ctx
+	if depth > 8 || p.i >= len(p.bs) {
+		return nil
+	}
+	switch {
+	case p.is('{'):
+		p.i++
+		n := &JNode{Kind: JObject}
+		p.ws()
+		if p.is('}') {
+			p.i++
+			return n
+		}
+		for {
+			p.ws()
+			if !p.is('"') {
+				return nil
+			}
+			k := p.str()
+			if k == nil {
+				return nil
+			}
+			p.ws()
+			if !p.is(':') {
+				return nil
+			}
+			p.i++
+			p.ws()
+			v := p.value(depth + 1)
+			if v == nil {
+				return nil
+			}
+			n.Keys = append(n.Keys, k.S)
+			n.Vals = append(n.Vals, v)
+			p.ws()
+			if p.is(',') {
+				p.i++
+				continue
+			}
+			if p.is('}') {
+				p.i++
+				return n
+			}
+			return nil
+		}
+	case p.is('['):
+		p.i++
+		n := &JNode{Kind: JArray}
+		p.ws()
+		if p.is(']') {
+			p.i++
+			return n
+		}
+		for {
+			p.ws()
+			v := p.value(depth + 1)
+			if v == nil {
+				return nil
+			}
+			n.Elems = append(n.Elems, v)
+			p.ws()
+			if p.is(',') {
+				p.i++
+				continue
+			}
+			if p.is(']') {
+				p.i++
+				return n
+			}
+			return nil
+		}
+	case p.is('"'):
+		return p.str()
+	case p.is('t'):
+		if p.word("true") {
+			return &JNode{Kind: JBool, B: c.T}
+		}
+		return nil
+	case p.is('f'):
+		if p.word("false") {
+			return &JNode{Kind: JBool, B: c.F}
+		}
+		return nil
+	case p.is('n'):
+		if p.word("null") {
+			return &JNode{Kind: JNull}
+		}
+		return nil
+	}
+	// number: -? (0 | [1-9][0-9]*) (. [0-9]+)? ([eE] [+-]? [0-9]+)?
+	start := p.i
+	if p.is('-') {
+		p.i++
+	}
+	if p.is('0') {
+		p.i++
+	} else if p.isDigit() {
+		for p.isDigit() {
+			p.i++
+		}
+	} else {
+		return nil
+	}
+	if p.is('.') {
+		p.i++
+		if !p.isDigit() {
+			return nil
+		}
+		for p.isDigit() {
+			p.i++
+		}
+	}
+	if p.is('e') || p.is('E') {
+		p.i++
+		if p.is('+') || p.is('-') {
+			p.i++
+		}
+		if !p.isDigit() {
+			return nil
+		}
+		for p.isDigit() {
+			p.i++
+		}
+	}
+	return &JNode{Kind: JNumText, Text: in.mkStr(p.bs[start:p.i])}
+}
+
+// str parses a string literal starting at the opening quote.
+func (p *symJSONParser) str() *JNode {
+	in := p.in
+	c := in.Ctx
+	bs := p.bs
+	n := len(bs)
+	var out []*sym.Term
+	i := p.i + 1
+	for i < n {
+		b := bs[i]
+		if in.Path.Branch(c.Eq(b, c.BV(8, '"'))) {
+			p.i = i + 1
+			return &JNode{Kind: JString, S: in.mkStr(out)}
+		}
+		if in.Path.Branch(c.Cmp(sym.OpUlt, b, c.BV(8, 0x20))) {
+			return nil // control character
 		}
 		if in.Path.Branch(c.Eq(b, c.BV(8, '\\'))) {
-			// escapes: handle the single-character ones; \u needs 4 hex digits
 			if i+1 >= n {
-				return &JNode{Kind: JInvalid}
+				return nil
 			}
 			e := bs[i+1]
-			type esc struct {
-				ch, val byte
-			}
 			handled := false
-			for _, es := range []esc{{'"', '"'}, {'\\', '\\'}, {'/', '/'}, {'b', 8}, {'f', 12}, {'n', 10}, {'r', 13}, {'t', 9}} {
+			for _, es := range []struct{ ch, val byte }{{'"', '"'}, {'\\', '\\'}, {'/', '/'}, {'b', 8}, {'f', 12}, {'n', 10}, {'r', 13}, {'t', 9}} {
 				if in.Path.Branch(c.Eq(e, c.BV(8, uint64(es.ch)))) {
 					out = append(out, c.BV(8, uint64(es.val)))
 					handled = true
 					break
 				}
 			}
-			if !handled {
-				if in.Path.Branch(c.Eq(e, c.BV(8, 'u'))) {
-					in.unsupported("\\u escape in symbolic JSON string")
-				}
-				return &JNode{Kind: JInvalid}
+			if handled {
+				i += 2
+				continue
 			}
-			i += 2
-			continue
+			if in.Path.Branch(c.Eq(e, c.BV(8, 'u'))) {
+				if i+6 > n {
+					return nil
+				}
+				// \u00XX with concrete "00" and symbolic or concrete hex digits (what the
+				// encoder above produces); other code points are outside the bound
+				hexv := func(h *sym.Term) (*sym.Term, bool) {
+					isNum := c.And(c.Cmp(sym.OpUle, c.BV(8, '0'), h), c.Cmp(sym.OpUle, h, c.BV(8, '9')))
+					if in.Path.Branch(isNum) {
+						return c.Bin(sym.OpSub, h, c.BV(8, '0')), true
+					}
+					isLow := c.And(c.Cmp(sym.OpUle, c.BV(8, 'a'), h), c.Cmp(sym.OpUle, h, c.BV(8, 'f')))
+					if in.Path.Branch(isLow) {
+						return c.Bin(sym.OpSub, h, c.BV(8, 'a'-10)), true
+					}
+					isUp := c.And(c.Cmp(sym.OpUle, c.BV(8, 'A'), h), c.Cmp(sym.OpUle, h, c.BV(8, 'F')))
+					if in.Path.Branch(isUp) {
+						return c.Bin(sym.OpSub, h, c.BV(8, 'A'-10)), true
+					}
+					return nil, false
+				}
+				h := make([]*sym.Term, 4)
+				for k := 0; k < 4; k++ {
+					v, ok := hexv(bs[i+2+k])
+					if !ok {
+						return nil
+					}
+					h[k] = v
+				}
+				if !in.Path.Branch(c.And(c.Eq(h[0], c.BV(8, 0)), c.Eq(h[1], c.BV(8, 0)))) {
+					in.unsupported("\\u escape beyond U+00FF in symbolic JSON text")
+				}
+				val := c.Bin(sym.OpBOr, c.Bin(sym.OpShl, h[2], c.BV(8, 4)), h[3])
+				if in.Path.Branch(c.Cmp(sym.OpUle, c.BV(8, 0x80), val)) {
+					in.unsupported("non-ASCII \\u escape in symbolic JSON text")
+				}
+				out = append(out, val)
+				i += 6
+				continue
+			}
+			return nil
 		}
 		if in.Path.Branch(c.Cmp(sym.OpUle, c.BV(8, 0x80), b)) {
-			// non-ASCII: valid UTF-8 passes through, invalid is replaced by U+FFFD; outside the
-			// stated bound (ASCII)
 			in.unsupported("non-ASCII byte in symbolic JSON string (outside the stated bound)")
 		}
 		out = append(out, b)
 		i++
 	}
-	return &JNode{Kind: JInvalid} // unterminated
+	return nil // unterminated
 }
 
 // ---------- json.Marshal ----------
